@@ -184,3 +184,25 @@ Proof. split; vm_compute; reflexivity. Qed.
 (* the structural facts of the source the model rests on *)
 Definition C05_structure :=
   (only_go_statement, handler_call_site, stream_defers_close, error_filter_shape, err_chan_capacity).
+
+(* ---------------------------------------------------------------------------------------------------------------
+   Source pins.  The model functions used above are a hand-written reading of these Go functions (they have closures,
+   channels, interfaces or maps, which the translator gotrans does not accept).  gosync regenerates their normalised
+   text (logging calls and comments removed) into gen/Source.v on every run; it must equal the committed snapshot
+   Spec/SourceSnapshot.v the models were written and validated against.  When one of them is edited the Example
+   naming it fails, the check runs the thorough harness in search of a failing input, and reports the property as no
+   longer shown to hold (with the input, or no-failing-input-found). *)
+From GB Require Proofs.SourcePins Spec.SourceSnapshot.
+From GBGen Require Source.
+Example C05_pin_Stream : Source.src_Stream = SourceSnapshot.src_Stream.
+Proof. exact SourcePins.pin_Stream. Qed.
+Example C05_pin_Error : Source.src_Error = SourceSnapshot.src_Error.
+Proof. exact SourcePins.pin_Error. Qed.
+Example C05_pin_newSlaveConnection : Source.src_newSlaveConnection = SourceSnapshot.src_newSlaveConnection.
+Proof. exact SourcePins.pin_newSlaveConnection. Qed.
+Example C05_pin_slaveConnection_close : Source.src_slaveConnection_close = SourceSnapshot.src_slaveConnection_close.
+Proof. exact SourcePins.pin_slaveConnection_close. Qed.
+Example C05_pin_startDumpFromBinlogPosition : Source.src_startDumpFromBinlogPosition = SourceSnapshot.src_startDumpFromBinlogPosition.
+Proof. exact SourcePins.pin_startDumpFromBinlogPosition. Qed.
+Example C05_pin_readBinlogEvent : Source.src_readBinlogEvent = SourceSnapshot.src_readBinlogEvent.
+Proof. exact SourcePins.pin_readBinlogEvent. Qed.
